@@ -110,7 +110,7 @@ TYME_SRC = '''
 from __future__ import annotations
 from dataclasses import dataclass
 from typing import Any
-from hio.help.doming import RegDom, TymeDom, IceTymeDom, registerify, namify
+from hio.help.doming import RegDom, IceRegDom, TymeDom, IceTymeDom, registerify, namify
 
 @registerify
 @dataclass
@@ -171,6 +171,39 @@ class C28Holder(RegDom):
 @dataclass
 class C28LCan(Can):
     label: Any = None
+
+# dataclass FIELDS whose names start with an underscore, of every value kind including nested data objects
+from c28_plain import C28LeafA
+from c28_ice import C28IceLeaf
+
+@registerify
+@dataclass
+class C28UMid(RegDom):
+    _leaf: C28LeafA = None
+    _v: Any = None
+    w: Any = None
+
+@registerify
+@dataclass(frozen=True)
+class C28UIce(IceRegDom):
+    _leaf: C28IceLeaf = None
+    _l: list = None
+    _m: dict = None
+
+@namify
+@registerify
+@dataclass
+class C28UBag(TymeDom):
+    _origin: C28TPoint = None
+    _n: int = None
+    value: Any = None
+
+@namify
+@registerify
+@dataclass(frozen=True)
+class C28UIceBag(IceTymeDom):
+    _origin: C28TPoint = None
+    _s: str = None
 '''
 # class number -> (name stem, [(field, dataclass number or None)])
 SCHEMA = []
@@ -198,8 +231,13 @@ SCHEMA += [("LBag", [("value", None), ("label", None), ("meta", None)]),
            ("TBag2", [("leaf", 12), ("v", None), ("extra", None)]),
            ("Holder", [("bag", 17), ("v", None)]),
            ("LCan", [("value", None), ("label", None)])]
+# 23..26: fields whose names start with an underscore (nested object, Any, list, dict, int, str)
+SCHEMA += [("UMid", [("_leaf", 0), ("_v", None), ("w", None)]),
+           ("UIce", [("_leaf", 8), ("_l", None), ("_m", None)]),
+           ("UBag", [("_origin", 12), ("_n", None), ("value", None)]),
+           ("UIceBag", [("_origin", 12), ("_s", None)])]
 NCLS = len(SCHEMA)
-FROZEN = {8, 9, 10, 11, 14, 16, 19}
+FROZEN = {8, 9, 10, 11, 14, 16, 19, 24, 26}
 _classes = None
 
 
@@ -224,6 +262,7 @@ def classes():
         from hio.base.hier.bagging import Bag, IceBag
         out += [Bag, IceBag]
         out += [m.C28LBag, m.C28NBag, m.C28LIce, m.C28TBag2, m.C28Holder, m.C28LCan]
+        out += [m.C28UMid, m.C28UIce, m.C28UBag, m.C28UIceBag]
         _classes = out
     return _classes
 
@@ -463,6 +502,13 @@ def directed():
             {"obj": obj(13, leaf=tp, v=["l", []]), "mut": [[["f", "leaf"]], "attr", "a", ["i", 6]]},
             {"obj": obj(14, leaf=tp, v=["l", []]), "mut": [[["f", "v"]], "append", ["i", 6]]}]
     out += directed_seqs()
+    # fields named with a leading underscore
+    out += [{"obj": ["o", 23, [["_leaf", obj(0, a=["i", 5], b=["s", "é"])], ["_v", ["l", [["i", 1]]]], ["w", ["n"]]]]},
+            {"obj": ["o", 24, [["_leaf", obj(8, a=["l", [["i", 1]]])], ["_l", ["l", [["s", "a"]]]], ["_m", ["d", [["k", ["i", 1]]]]]]]},
+            {"obj": ["o", 25, [["_origin", obj(12, a=["i", 5], b=["i", 6])], ["_n", ["i", 7]], ["value", ["s", "v"]]]]},
+            {"obj": ["o", 26, [["_origin", obj(12, a=["i", 5], b=["i", 6])], ["_s", ["s", "日本"]]]]},
+            {"obj": ["o", 23, [["_leaf", ["n"]], ["_v", ["d", [["k", ["n"]]]]], ["w", ["i", 1]]]]},
+            {"obj": ["o", 23, [["_leaf", obj(0, a=["l", []])], ["_v", ["n"]], ["w", ["n"]]]], "mut": [[["f", "_leaf"], ["f", "a"]], "append", ["i", 1]]}]
     # subclasses adding fields to namified classes, top level and nested
     lb = obj(17, value=["i", 5], label=["s", "five"], meta=["d", [["k", ["i", 1]]]])
     out += [{"obj": lb}, {"obj": obj(18, value=["i", 5], label=["s", "five"], meta=["l", [["i", 1]]])},
@@ -559,7 +605,7 @@ def mutation_cases(rng, k):
 
 
 def rand_typed(rng):
-    c = rng.choice([0, 1, 2, 4, 5, 6, 8, 9, 10, 12, 13, 14, 15, 16, 17, 18, 19, 20, 21, 22])
+    c = rng.choice([0, 1, 2, 4, 5, 6, 8, 9, 10, 12, 13, 14, 15, 16, 17, 18, 19, 20, 21, 22, 23, 24, 25, 26])
     return rand_obj(rng, c, 0.0, 0.0)
 
 
